@@ -2,7 +2,7 @@ import Drivers.Common
 import SpecVerif.Wire.Encode
 open SpecVerif Drivers
 
-def F := nativeFloat
+def F := modelFloat
 
 def showV {α} (f : α → String) : Res (α × Nat) → String :=
   showRes fun (a, n) => f a ++ " " ++ toString n
